@@ -672,6 +672,10 @@ func (r *lsmRun) program(p lsmProfile) {
 
 // scripted regression programs, run before the random ones
 var lsmScripts = map[string][]string{
+	// a wide, newer ingest table arrives after a narrower one that starts later: the lookup must not stop at the
+	// narrower table's bound (running maxima of the range index follow the SORTED order, not the arrival order)
+	"ingest_wide_after_narrow_plain": {"put x 1", "rotate", "flush", "move", "drain", "read", "put m 2", "put p 3", "rotate", "flush", "move", "put a 4", "put x 5", "put z 6", "rotate", "flush", "move", "read", "reopen", "read"},
+	"ingest_wide_after_narrow":       {"putv x 1 1", "rotate", "flush", "move", "drain", "read", "putv m 2 2", "putv p 2 3", "rotate", "flush", "move", "putv a 3 4", "putv x 3 5", "putv z 3 6", "rotate", "flush", "move", "read", "reopen", "read"},
 	// the newest version of k is an expired entry (or a tombstone) parked in the ingest buffer above the older live value:
 	// rewriting its table alone (ingest keep-merge) must keep it shadowing
 	"ttl_shadow":       {"tput k", "tput a", "rotate", "flush", "move", "drain", "read", "texp k", "tdel a", "rotate", "flush", "move", "read", "keep", "read", "reopen", "read", "drain", "read"},
@@ -840,7 +844,7 @@ func runLsm(c *corr.Ctx) error {
 		runTargets(c, c.Scale(300, 20000))
 	}
 	if plain {
-		for _, name := range []string{"l0_tie", "ingest_tie", "ingest_tie2", "drain_overlap_plain", "ingest_over_main_plain", "l0_prefix_plain", "base_level_drop_plain", "ttl_shadow_plain"} {
+		for _, name := range []string{"l0_tie", "ingest_tie", "ingest_tie2", "drain_overlap_plain", "ingest_over_main_plain", "l0_prefix_plain", "base_level_drop_plain", "ttl_shadow_plain", "ingest_wide_after_narrow_plain"} {
 			runScriptLsm(c, name, true)
 		}
 	} else if c.Prop == "C12" {
@@ -848,7 +852,7 @@ func runLsm(c *corr.Ctx) error {
 			runScriptLsm(c, name, false)
 		}
 	} else {
-		for _, name := range []string{"order", "mono", "l0_tie", "drain_overlap", "ingest_over_main", "hot_key", "ttl_shadow"} {
+		for _, name := range []string{"order", "mono", "l0_tie", "drain_overlap", "ingest_over_main", "hot_key", "ttl_shadow", "ingest_wide_after_narrow"} {
 			runScriptLsm(c, name, false)
 		}
 	}
